@@ -275,6 +275,33 @@ def through_aux_data(ctx, g):
             if got != "TypeNameError":
                 ctx.add("oracle", "parse-differs-from-grammar", "%s with the type name %r is %s; the string is outside the grammar and must be rejected with TypeNameError"
                         % (nm, tn, got), {"type_name": tn, "entry_point": nm, "got": got})
+    # a table loaded under a GOOD name, never read, whose type_name is then assigned a string outside the grammar: writing it parses
+    # the new name (the value has to be re-encoded under it) -- TypeNameError from _to_protobuf and from saving the IR, and the
+    # malformed name never reaches a file
+    for tn in bad:
+        for via_file in (False, True):
+            r = outcome(lambda: loaded_table("uint8_t", b"\x07", via_file))
+            if r[0] != "ok":
+                continue
+            t = r[1]
+            t.type_name = tn
+            ctx.case("aux-route-retyped:%r:%s" % (tn, via_file), True)
+            ctx.count("aux_route_cases")
+            got = outcome(lambda t=t: t._to_protobuf())
+            if got != ("err", "TypeNameError"):
+                ctx.add("oracle", "parse-differs-from-grammar", "a loaded, never read table whose type_name was assigned %r is written (%s); the string is outside the grammar and must be "
+                        "rejected with TypeNameError" % (tn, "accepted" if got[0] == "ok" else got[1]), {"type_name": tn, "entry_point": "AuxData._to_protobuf after assigning type_name"})
+        ir = g.IR()
+        ir.aux_data["t"] = g.AuxData(7, "uint8_t")
+        buf = io.BytesIO()
+        ir.save_protobuf_file(buf)
+        ir2 = g.IR.load_protobuf_file(io.BytesIO(buf.getvalue()))
+        ir2.aux_data["t"].type_name = tn
+        got = outcome(lambda: ir2.save_protobuf_file(io.BytesIO()))
+        ctx.count("aux_route_cases")
+        if got != ("err", "TypeNameError"):
+            ctx.add("oracle", "parse-differs-from-grammar", "saving a loaded IR whose unread table was given the type name %r is %s; the string is outside the grammar and must be rejected "
+                    "with TypeNameError" % (tn, "accepted" if got[0] == "ok" else got[1]), {"type_name": tn, "entry_point": "IR.save_protobuf_file after assigning type_name"})
     # the same route on the model: a loaded table (Model/AuxTable.v `load`) read twice -- the lazy decode parses the type name
     from common import model_batch, model_result, zs
     reps = model_batch([[10, [], zs(tn), list(b"\x05\0\0\0\0\0\0\0"), [[0], [0]]] for tn in bad])
